@@ -94,6 +94,29 @@ int main(int argc, char** argv)
   quill::BackendOptions bo;
   bo.check_backend_singleton_instance = false;
   bo.error_notifier = [](std::string const&) {};
+  // --grace_us: timestamp ordering grace period (statements younger than this stay in their queue for a while: a stop
+  // right after logging finds them there); --wait_empty 0: wait_for_queues_to_empty_before_exit off (only combined with
+  // signals, whose clause does not depend on it); --settle_ms: pause before the action, so that the backend has consumed
+  // everything and is idle when it is stopped (within the sinks' minimum flush interval)
+  if (int g = atoi(a["grace_us"].c_str()); g > 0) bo.log_timestamp_ordering_grace_period = std::chrono::microseconds{g};
+  if (a["wait_empty"] == "0") bo.wait_for_queues_to_empty_before_exit = false;
+  int const settle_ms = atoi(a["settle_ms"].c_str());
+  // copy of the victim's file taken the moment Backend::stop() returned ("written and flushed before the backend thread
+  // terminates" - not merely by the time the sinks are destroyed at process exit)
+  auto snapshot_at_stop = [&](long idx)
+  {
+    std::string const src = g_dir + "/victim.log", dst = g_dir + "/victim.at_stop." + std::to_string(idx);
+    int in = ::open(src.c_str(), O_RDONLY), out = ::open(dst.c_str(), O_WRONLY | O_CREAT | O_TRUNC, 0644);
+    if (in >= 0 && out >= 0)
+    {
+      char buf[65536];
+      ssize_t n;
+      while ((n = ::read(in, buf, sizeof buf)) > 0)
+        if (::write(out, buf, static_cast<size_t>(n)) != n) _exit(97);
+    }
+    if (in >= 0) ::close(in);
+    if (out >= 0) ::close(out);
+  };
   auto start_backend = [&]
   {
     if (action == "signal")
@@ -206,10 +229,12 @@ int main(int argc, char** argv)
       }
     };
     log_until(K);
+    if (settle_ms > 0) usleep(static_cast<useconds_t>(settle_ms) * 1000);
     pr.rec("action", K);
     if (action == "stop")
     {
       quill::Backend::stop();
+      snapshot_at_stop(0);
       pr.rec("stopped", K);
     }
     else if (action == "exit")
@@ -227,6 +252,7 @@ int main(int argc, char** argv)
       for (int c = 0; c < cycles; ++c)
       {
         quill::Backend::stop();
+        if (c == 0) snapshot_at_stop(0);
         pr.rec("stopped", c);
         start_backend();
         log_until(c + 1 == cycles ? N : i + per);
